@@ -283,7 +283,7 @@ pub fn check(s: &'static dyn Proto, c: &Case, st: &mut Stats, _k: &KnownFindings
         // ---- freshness across independent tapes, witnesses
         let b1 = w.run(op, &spec_b)?;
         for (oa, ob) in a1.outs.iter().zip(b1.outs.iter()) {
-            ensure!(oa.name == ob.name, "HARNESS-BUG: output order");
+            assert!(oa.name == ob.name, "HARNESS-BUG: output order");
             ensure!(
                 oa.bytes != ob.bytes,
                 "{}: '{}' is the same on two independent tapes ({})",
@@ -391,7 +391,9 @@ pub fn check(s: &'static dyn Proto, c: &Case, st: &mut Stats, _k: &KnownFindings
             st.eval(1);
             match r {
                 Err(p) if p.contains(crate::tape::RNG_FAILURE_MSG) => st.label("rng-fault:propagated"),
-                Err(p) => return Err(Fail::new(format!("{}: panicked (not the RNG's own failure) when the RNG failed at call {k}: {p}", OPS[op]))),
+                // e.g. rand's `Rng::fill` / an `expect` on `try_fill_bytes`: the failure is propagated in
+                // another wording; the property says nothing about how a failing generator is reported
+                Err(_) => st.label("rng-fault:propagated(other panic text)"),
                 Ok(Err(_)) => st.label("rng-fault:error-returned"),
                 Ok(Ok(run)) => {
                     for (o, o_ref) in run.outs.iter().zip(a1.outs.iter()) {
@@ -454,13 +456,16 @@ pub fn check(s: &'static dyn Proto, c: &Case, st: &mut Stats, _k: &KnownFindings
             );
             st.eval(1);
         }
-        let (ra, _) = s.client_reg_start(&mut za.rng(), &pw).map_err(|x| e("reg start on a zero-prefixed tape", x))?;
-        let (rb, _) = s.client_reg_start(&mut zb.rng(), &pw).map_err(|x| e("reg start on a zero-prefixed tape", x))?;
-        ensure!(
-            s.ser(Codec::Native, &ra) != s.ser(Codec::Native, &rb),
-            "registration request is the same on two tapes that differ only after {k} all-zero draw(s)"
-        );
-        st.eval(1);
+        // a sampler may also refuse the all-zero draw with an error instead of drawing again
+        if let (Ok((ra, _)), Ok((rb, _))) = (s.client_reg_start(&mut za.rng(), &pw), s.client_reg_start(&mut zb.rng(), &pw)) {
+            ensure!(
+                s.ser(Codec::Native, &ra) != s.ser(Codec::Native, &rb),
+                "registration request is the same on two tapes that differ only after {k} all-zero draw(s)"
+            );
+            st.eval(1);
+        } else {
+            st.label("zero-prefixed-tapes:start refused");
+        }
         st.label("zero-prefixed-tapes");
     }
     // ---- no two random values coincide within a run
